@@ -25,7 +25,7 @@ from vt.gen import held, violated, ood
 from vt.oracles import geom as G
 
 PROP = "C08"
-RULE = ("one case = one index (TrackCollection or Network; 1..5 features of 2..6 vertices drawn on a half-integer lattice, "
+RULE = ("one case = one index (TrackCollection or Network; 1..5 features (up to 13 one-leg features in the corner profile) of 2..6 vertices drawn on a half-integer lattice, "
         "at random, or random then snapped to the predicted grid lines; resolution None / square / non-square; margin in "
         "{0, 0.05, 0.1, 0.5}) plus a batch of queries: request(coord) at cell centres, grid lines, grid corners, the outer "
         "border, feature vertices and random points; request([c1,c2]); request(track); neighborhood(coord, "
@@ -268,14 +268,14 @@ def _border_tracks(rng):
         ox, oy = rng.choice([0, 0, rng.uniform(-5, 5)]), rng.choice([0, 0, rng.uniform(-5, 5)])
         big = max(res) if res else 1
         if rng.random() < 0.5:
-            W, H = rng.randint(int(4 * big), int(4 * big) + 20) / 2, rng.randint(int(4 * big), int(4 * big) + 20) / 2
+            W, H = rng.randint(int(8 * big), int(8 * big) + 24) / 2, rng.randint(int(8 * big), int(8 * big) + 24) / 2
         else:
-            W, H = rng.uniform(2 * big, 2 * big + 10), rng.uniform(2 * big, 2 * big + 10)
+            W, H = rng.uniform(4 * big, 4 * big + 12), rng.uniform(4 * big, 4 * big + 12)
         low = [[ox, oy]]
         for _k in range(rng.randint(1, 3)):
             low.append([ox + rng.uniform(0, 0.6) * W, oy + rng.uniform(0, 0.6) * H])
-        xa, xb = sorted([rng.uniform(0.1, 1) * W, rng.uniform(0.1, 1) * W])
-        ya, yb = sorted([rng.uniform(0.1, 1) * H, rng.uniform(0.1, 1) * H])
+        xa, xb = rng.uniform(0.02, 0.3) * W, rng.uniform(0.7, 1) * W
+        ya, yb = rng.uniform(0.02, 0.3) * H, rng.uniform(0.7, 1) * H
         top = [[ox + xa, oy + H], [ox + xb, oy + H]]
         right = [[ox + W, oy + ya], [ox + W, oy + yb]]
         if rng.random() < 0.3:
@@ -291,7 +291,7 @@ def _border_tracks(rng):
 
 
 def _corner_tracks(rng):
-    """A diagonal frame plus up to five one-leg features, each running from the inside of a cell to a point on the
+    """A diagonal frame plus up to twelve one-leg features, each running from the inside of a cell to a point on the
     border of that cell one or two ulps away from one of its corners."""
     res = rng.choice(RES_SQUARE + RES_NONSQUARE)
     margin = rng.choice(MARGINS)
@@ -305,8 +305,8 @@ def _corner_tracks(rng):
     tracks = [frame]
     if P is None:
         return tracks, res, margin
-    for _ in range(40):
-        if len(tracks) >= 6:
+    for _ in range(80):
+        if len(tracks) >= 13:
             break
         i, j = rng.randrange(P["cs"]), rng.randrange(P["ls"])
         ci, cj = i + rng.randrange(2), j + rng.randrange(2)
@@ -454,12 +454,13 @@ def _gen_rand_case(rng, force=None):
                             rng.uniform(0, 3 * max(P["dX"], P["dY"])), rng.uniform(0, gsize)])
             queries.append({"q": "nbh", "p": p, "d": d})
     # neighbourhood queries aimed at one leg: a point a fraction of a cell beside it, radius just above the offset
-    for _ in range(2 if heavy else 5):
+    aimed = profile in ("border", "corner")
+    for _ in range((4 if heavy else 12) if aimed else (2 if heavy else 5)):
         t = rng.choice(tracks)
         k = rng.randrange(len(t) - 1)
-        s_ = rng.random()
+        s_ = rng.uniform(0.25, 0.75) if aimed else rng.random()
         mx, my = t[k][0] + s_ * (t[k + 1][0] - t[k][0]), t[k][1] + s_ * (t[k + 1][1] - t[k][1])
-        off = rng.choice([0.1, 0.3, 0.7, 1.2]) * cell
+        off = rng.choice([0.1, 0.3] if aimed else [0.1, 0.3, 0.7, 1.2]) * cell
         ang = rng.choice([0, 0.5, 1, 1.5]) * math.pi if rng.random() < 0.6 else rng.uniform(0, 2 * math.pi)
         p = [min(max(mx + off * math.cos(ang), P["x0"]), P["x1"]), min(max(my + off * math.sin(ang), P["y0"]), P["y1"])]
         queries.append({"q": "nbh", "p": p, "d": off * rng.choice([1.05, 1.5, 2])})
@@ -508,7 +509,7 @@ def cases(chunk):
         if n % 12 == 5:
             yield _gen_rand_case(rng, {"border": True})
             continue
-        if n % 12 == 9:
+        if n % 12 in (1, 9):
             yield _gen_rand_case(rng, {"corner": True})
             continue
         if n % 7 == 0:
